@@ -33,6 +33,8 @@ pub fn run(ctx: &Ctx, rep: &mut Report) {
             _ => 1_000_000u64 + rng.below(1000),
         };
         let mut u = U::with_ledger(100, t0);
+        let pace: u64 = if rng.chance(1, 3) { 1 } else { 5 };
+        rep.count(&format!("ledger-pace:{}s", pace));
         let mut ring = KeyRing::default();
         let owner = u.principal();
         let operator = u.principal();
@@ -55,7 +57,14 @@ pub fn run(ctx: &Ctx, rep: &mut Report) {
             };
             // the ledger clock never goes backwards
             let t = target.max(now);
-            u.advance_to_time(t);
+            // ledgers close every 5 s or every second; now and then a long quiet period passes first
+            // (long enough for every temporary entry to expire; the model clock reads the real time)
+            if rng.chance(1, 8) {
+                u.advance(EON);
+                rep.count("eon-before-step");
+            }
+            let t = t.max(u.time());
+            u.advance_to_time_paced(t, pace);
             let cand = gen_wellformed_set(&mut rng, &mut ring, 3);
             let newest = g.model.sets.last().unwrap().clone();
             let dh = cand.rotation_data_hash();
@@ -120,5 +129,5 @@ pub fn run(ctx: &Ctx, rep: &mut Report) {
     req.extend(["rel:before", "rel:at", "rel:after", "final-at"].iter().map(|s| s.to_string()));
     rep.notes.insert("required".into(), json!(req));
     rep.notes.insert("bounds".into(), json!({"delays": delays.iter().map(|d| d.to_string()).collect::<Vec<_>>(), "sequence_length": len, "options_per_step": 16}));
-    rep.notes.insert("rule".into(), json!("exhaustive within bounds: for every minimum delay, every sequence of the stated length over (time offset in {no time passing, boundary-1, boundary, boundary+1} relative to last successful rotation + delay) x (kind in {plain, bypass with operator, bypass without operator, plain with insufficient proof}); the ledger timestamp is set explicitly before each call and never decreases; deployment (at ledger time 0, 1, an ordinary time or close to the end of the u64 range) counts as the first rotation; each history ends with rolled-back probes one second before and exactly at the boundary. distinct = (delay, kind, before/at/after boundary, expectation, outcome, epoch)"));
+    rep.notes.insert("rule".into(), json!("exhaustive within bounds: for every minimum delay, every sequence of the stated length over (time offset in {no time passing, boundary-1, boundary, boundary+1} relative to last successful rotation + delay) x (kind in {plain, bypass with operator, bypass without operator, plain with insufficient proof}); the ledger timestamp is set explicitly before each call and never decreases, ledgers close every 5 s or every second, one step in eight is preceded by a quiet period long enough for every temporary entry to expire; deployment (at ledger time 0, 1, an ordinary time or close to the end of the u64 range) counts as the first rotation; each history ends with rolled-back probes one second before and exactly at the boundary. distinct = (delay, kind, before/at/after boundary, expectation, outcome, epoch)"));
 }
